@@ -667,7 +667,8 @@ async fn badpreamble(kind: &str, pwi: usize, pause_ms: u64) -> Res {
 async fn finburst(n: usize, k: usize, cut: u64) -> Res {
     use sha2::{Digest, Sha256};
     let w = World::start(None, None, pool_default(), false).await?;
-    let target = Target::start("127.0.0.1", Mode::Sink).await;
+    // the target answers only after it has seen the end of the request (a half-close protocol): 700 bytes, then it closes
+    let target = Target::start("127.0.0.1", Mode::ReplyAtEof(700)).await;
     let mut fails = vec![];
     let hash = { let mut h = Sha256::new(); h.update(b"pw"); h.finalize().to_vec() };
     let cfg = anytls_rs::util::tls::create_client_config().map_err(|e| e.to_string())?;
@@ -702,10 +703,28 @@ async fn finburst(n: usize, k: usize, cut: u64) -> Res {
     let _ = wait_until(Duration::from_millis(1500), || target.snapshot().first().map(|c| c.eof).unwrap_or(false)).await;
     let (got, eof) = target.snapshot().first().map(|c| (c.bytes.clone(), c.eof)).unwrap_or_default();
     // O (C08): end of stream reaches the target after, and only after, every byte sent before the FIN
+    // O (C08): ... and the other direction keeps working: the answer the target sends after that reaches the peer
+    let mut back: Vec<u8> = vec![];
+    let mut raw: Vec<u8> = vec![];
+    let dl = tokio::time::Instant::now() + Duration::from_secs(3);
+    if got == sent && eof {
+        while back.len() < 700 {
+            match tokio::time::timeout_at(dl, tls.read(&mut buf)).await {
+                Ok(Ok(k)) if k > 0 => {
+                    raw.extend_from_slice(&buf[..k]);
+                    let (frames, rest) = crate::g_frame::ref_parse(&raw);
+                    for (c, sid, d) in frames { if c == 2 && sid == 1 { back.extend_from_slice(&d); } }
+                    raw = rest;
+                }
+                _ => break,
+            }
+        }
+        if back != src_pattern(700) { fails.push(fail("reverse_direction_cut_by_fin/server_relay", format!("after the peer's FIN the target answered with 700 bytes; {} of them reached the peer", back.len()))); }
+    }
     if got != sent { fails.push(fail("eof_before_all_data/server_relay", format!("the peer sent {k} frames of {n} bytes and FIN; the target received {} of {} bytes (end of stream seen: {eof})", got.len(), total))); }
     else if !eof { fails.push(fail("fin_not_delivered/server_relay", format!("the peer sent {total} bytes and FIN; the target received the bytes and no end of stream"))); }
     w.stop().await;
-    Ok((format!("delivered={}/{} eof={}", got.len(), total, eof as u8), fails))
+    Ok((format!("delivered={}/{} eof={} back={}", got.len(), total, eof as u8, back.len()), fails))
 }
 
 async fn pushe2e() -> Res {
